@@ -614,6 +614,62 @@ impl Run {
                 let t = self.sched.add(&format!("proxy{p}"), fut);
                 self.proxies.insert(p, t);
             }
+            "proxysig2" => {
+                // ["proxysig2", p, dest, m1, m2]: one Proxy whose first two signal streams are requested at the same
+                // time (futures joined), held as one droppable handle
+                let p = a(1);
+                let dest = st[2].as_str().unwrap_or("org.verif.Peer").to_string();
+                let m1 = st[3].as_str().unwrap_or("A").to_string();
+                let m2 = st[4].as_str().unwrap_or("B").to_string();
+                emit(&self.sh, json!({"ev":"ProxyStart","proxy":p,"dest":dest.clone(),"member":format!("{m1}+{m2}")}));
+                let conn = self.conn.as_ref().unwrap().clone();
+                let sh = self.sh.clone();
+                let fut: Pin<Box<dyn Future<Output = J>>> = Box::pin(async move {
+                    let r = async {
+                        let px: zbus::Proxy<'static> = zbus::proxy::Builder::new(&conn)
+                            .destination(dest)?.path("/org/verif/Obj")?.interface("org.verif.Iface")?
+                            .cache_properties(zbus::proxy::CacheProperties::No).build().await?;
+                        drop(conn);
+                        let (s1, s2) = futures_util::future::join(px.receive_signal(m1), px.receive_signal(m2)).await;
+                        let (s1, s2) = (s1?, s2?);
+                        Ok::<_, zbus::Error>((px, s1, s2))
+                    }.await;
+                    match r {
+                        Ok((_px, s1, s2)) => {
+                            emit(&sh, json!({"ev":"ProxySubscribed","proxy":p,"result":"ok"}));
+                            let mut both = futures_util::stream::select(s1, s2);
+                            while let Some(m) = both.next().await {
+                                emit(&sh, json!({"ev":"ProxyDelivered","proxy":p,"id":first_u32(&m)}));
+                            }
+                            emit(&sh, json!({"ev":"ProxyStreamEnd","proxy":p}));
+                        }
+                        Err(e) => emit(&sh, json!({"ev":"ProxySubscribed","proxy":p,"result":"err","err":err_kind(&e).0})),
+                    }
+                    json!("done")
+                });
+                let t = self.sched.add(&format!("proxy{p}"), fut);
+                self.proxies.insert(p, t);
+            }
+            "reqname" => {
+                // ["reqname", flags]: request a well-known name on the (fake) bus; flags bit 0 = AllowReplacement,
+                // 1 = ReplaceExisting, 2 = DoNotQueue
+                if let Some(c) = self.conn.clone() {
+                    let bits = a(1);
+                    let sh = self.sh.clone();
+                    let fut: Pin<Box<dyn Future<Output = J>>> = Box::pin(async move {
+                        let mut f: enumflags2::BitFlags<zbus::fdo::RequestNameFlags> = enumflags2::BitFlags::empty();
+                        if bits & 1 != 0 { f |= zbus::fdo::RequestNameFlags::AllowReplacement; }
+                        if bits & 2 != 0 { f |= zbus::fdo::RequestNameFlags::ReplaceExisting; }
+                        if bits & 4 != 0 { f |= zbus::fdo::RequestNameFlags::DoNotQueue; }
+                        let r = c.request_name_with_flags("org.verif.Owned", f).await;
+                        drop(c);
+                        emit(&sh, json!({"ev":"NameRequested","flags":bits,"ok":r.is_ok()}));
+                        json!("done")
+                    });
+                    let t = self.sched.add("reqname", fut);
+                    self.sched.poll(t);
+                }
+            }
             "pollp" => {
                 if let Some(&t) = self.proxies.get(&a(1)) {
                     self.sched.poll(t);
